@@ -151,11 +151,20 @@ func Check(env *core.Env, rep *core.Report) *core.Result {
 			d := env.Sub("tm")
 			trace := filepath.Join(d, "trace")
 			var cmds []string
+			// two equal commands are run, every other time, as ONE command with two variations: the
+			// timeout bounds the command in every variation
+			asVariations := len(j.s.Jdur) == 2 && j.s.Jdur[0] == j.s.Jdur[1] && i%2 == 0
 			for k, du := range j.s.Jdur {
+				if asVariations && k == 1 {
+					break
+				}
 				cmds = append(cmds, cmdFor("j", k+1, du, j.shape, trace, scale))
 			}
 			t := task.FromCommands(cmds...)
 			t.Name = "t"
+			if asVariations {
+				t.Variations = []map[string]string{{"VV": "a"}, {"VV": "b"}}
+			}
 			for k, du := range j.s.Bdur {
 				t.Before = append(t.Before, cmdFor("b", k+1, du, j.shape, trace, scale))
 			}
@@ -208,7 +217,12 @@ func Check(env *core.Env, rep *core.Report) *core.Result {
 				}
 			}
 			want := j.s.tokens()
-			desc := fmt.Sprintf("[before=%v commands=%v after=%v allow_failure=%v shape=%s timeout=%s as-pipeline-stage=%v]", j.s.Bdur, j.s.Jdur, j.s.Adur, j.s.Allow, j.shape, to, viaStage)
+			if asVariations {
+				for k := range want {
+					want[k] = strings.Replace(want[k], "j.2.", "j.1.", 1)
+				}
+			}
+			desc := fmt.Sprintf("[before=%v commands=%v after=%v allow_failure=%v shape=%s timeout=%s as-pipeline-stage=%v as-variations=%v]", j.s.Bdur, j.s.Jdur, j.s.Adur, j.s.Allow, j.shape, to, viaStage, asVariations)
 			det := map[string]interface{}{"scenario": j.s, "shape": j.shape, "observed_tokens": got, "elapsed_ms": el.Milliseconds(), "error": fmt.Sprint(err)}
 			var fs []core.Finding
 			add := func(kind, what string) {
